@@ -361,6 +361,37 @@ example : oneLineBlock "\"\"\"Greet warmly\"\"\"".toList = some "Greet warmly".t
   decide
 
 open NemoVerif.NumberedLines in
+/-- Positive specification with a multi-line `\"\"\"` comment block in front: opener `\"\"\"t`, middle lines, closer `u\"\"\"` - with blank lines anywhere
+    inside the block - then a block of blank / `#` / one-line `\"\"\"` lines, then an ordinary statement: the statement's record carries
+    `commentOfB (some (t ⏎ middle lines ⏎ u)) block`; the blank lines inside the multi-line block are dropped (`blockBody`). -/
+theorem numbered_lines_ml_comment_attach (pre post mids block : List Str) (openL closeL t u stmt : Str)
+    (st' : NumberedLines.St) (out : List Rec) (hpre : runPre NumberedLines.St.init pre = .ok (st', out))
+    (hB : st'.atBoundary = true) (hml : st'.mlComment = false)
+    (ho : openLine (strip openL) = some t) (hm : ∀ l ∈ mids, strip l = [] ∨ ∃ p, midLine (strip l) = some p)
+    (hc : closeLine (strip closeL) = some u)
+    (hblock : ∀ l ∈ block, strip l = [] ∨ (∃ c, strip l = '#' :: c) ∨ ∃ body, oneLineBlock (strip l) = some body)
+    (hs : plainStmt (strip stmt) = true) :
+    numbered ((pre ++ openL :: (mids ++ [closeL])) ++ (block ++ stmt :: post)) =
+      (run { st' with mlComment := false, comment := none, pending := none } post).map fun rest =>
+        out ++ { text := firstPart (strip stmt), indentation := lead stmt,
+                 comment := commentOfB (some (blockBody t mids ++ '\n' :: u)) block } :: rest := by
+  have hB' : ({ st' with mlComment := false, comment := some (blockBody t mids ++ '\n' :: u) } : NumberedLines.St).atBoundary = true := by
+    simpa [NumberedLines.St.atBoundary] using hB
+  have hpre' : runPre NumberedLines.St.init (pre ++ openL :: (mids ++ [closeL])) =
+      .ok ({ st' with mlComment := false, comment := some (blockBody t mids ++ '\n' :: u) }, out) := by
+    rw [runPre_append, hpre]
+    simp only [runPre_mlBlock st' openL closeL t u mids hB hml ho hm hc, List.append_nil]
+  exact numbered_lines_comment_block_attach _ post block stmt _ out hpre' hB' rfl hblock hs
+
+
+open NemoVerif.NumberedLines in
+/-- non-vacuity (finite facts) -/
+example : openLine "\"\"\"First line".toList = some "First line".toList ∧ midLine "more".toList = some "more".toList ∧
+    closeLine "end.\"\"\"".toList = some "end.".toList ∧
+    blockBody "First line".toList ["  more".toList, [], "  text".toList] = "First line\nmore\ntext".toList := by decide
+
+
+open NemoVerif.NumberedLines in
 /-- kernel-checked witnesses (finite facts) that the hypothesis `atBoundary` of `numbered_lines_blank` is needed: a blank line between a line
     ending in ` or` and its continuation, or inside a multi-line string, changes the records. -/
 theorem numbered_lines_blank_boundary_witness :
